@@ -46,6 +46,11 @@ def make_overlay(root, edits):
             old = old.replace('\n', '\r\n')
             new = new.replace('\n', '\r\n')
         if src.count(old) != 1:
+            # an edit which is already in the tree (a proposed fix that was
+            # committed meanwhile) counts as applied
+            if new and old not in src and src.count(new) == 1:
+                overlay.setdefault(rel, src)
+                continue
             return None
         overlay[rel] = src.replace(old, new)
     for rel, src in overlay.items():
